@@ -18,6 +18,10 @@ func main() {
 		}
 	case "store-replay":
 		os.Exit(runStoreReplay(os.Args[2:]))
+	case "archive-replay":
+		os.Exit(runArchiveReplay(os.Args[2:]))
+	case "hashfuzz":
+		os.Exit(runHashFuzz(os.Args[2:]))
 	case "reader-replay":
 		os.Exit(runReaderReplay(os.Args[2:]))
 	case "store-replay-one":
